@@ -83,6 +83,19 @@ macro_rules! kinds { ($unitype:ident, $case:expr, $sh:expr, $instr:expr) => {{
                 on_close(s3));
             drive!(uni, sh, $case)
         },
+        "fb" => {
+            // a pipeline that reads AHEAD of the executor: the item futures are driven inside the pipeline by `.buffered(R)` (up to R at a
+            // time, whatever the executor's own concurrency limit), the executor only sees their results
+            let (s1, s3) = (sh.clone(), sh.clone());
+            let r = $case.get("R", 2) as usize;
+            let uni = $unitype::<u32, 64, 1, {$instr}>::new("u").spawn_futures_executors(limit, tau,
+                move |stream| { let s1 = s1.clone(); stream.map(move |i: u32| { let s = s1.clone(); async move {
+                    let _g = Guard::enter(&s); let (d, _f) = s.items[i as usize];
+                    if d > 0 { tokio::time::sleep(Duration::from_millis(d)).await; }
+                    i } }).buffered(r).map(|v| futures::future::ready(v)) },
+                on_close(s3));
+            drive!(uni, sh, $case)
+        },
         "nf" => {
             let (s1, s2, s3) = (sh.clone(), sh.clone(), sh.clone());
             let uni = $unitype::<u32, 64, 1, {$instr}>::new("u").spawn_fallibles_executors(limit,
